@@ -65,6 +65,11 @@ htp_status_t htp_process_request_header_generic(htp_connp_t *connp, unsigned cha
     fprint_bstr(stderr, "Header value", h->value);
     #endif
 
+    // Remember that the field was continued on a further line (folded).
+    if (connp->in_header_folded) {
+        h->flags |= HTP_FIELD_FOLDED;
+    }
+
     // Do we already have a header with the same name?
     htp_header_t *h_existing = htp_table_get(connp->in_tx->request_headers, h->name);
     if (h_existing != NULL) {
@@ -86,6 +91,7 @@ htp_status_t htp_process_request_header_generic(htp_connp_t *connp, unsigned cha
         }
         // Keep track of repeated same-name headers.
         h_existing->flags |= HTP_FIELD_REPEATED;
+        h_existing->flags |= (h->flags & HTP_FIELD_FOLDED);
 
         // Having multiple C-L headers is against the RFC but
         // servers may ignore the subsequent headers if the values are the same.
